@@ -297,3 +297,29 @@ Proof.
   - exact W.
   - intros a b r Hin. destruct (Ho a b r Hin) as (_ & _ & Hr). exact Hr.
 Qed.
+
+(* ---------- executable form of the stream hypothesis (spec/StreamSpec.v) ---------- *)
+From LV Require Import spec.StreamSpec.
+Lemma knownb_iff E x : knownb E x = true <-> exists ex, alookup x E = Some ex.
+Proof. unfold knownb. destruct (alookup x E) as [ex|]; split; eauto; try discriminate. intros [ex H]. discriminate H. Qed.
+Theorem wf_evb_iff n E e : wf_evb n E e = true <-> wf_ev n E e.
+Proof.
+  unfold wf_evb, wf_ev. rewrite !andb_true_iff, negb_true_iff, Nat.ltb_lt, N.leb_le, forallb_forall.
+  assert (H1 : knownb E (eid e) = false <-> alookup (eid e) E = None).
+  { unfold knownb. destruct (alookup (eid e) E); split; congruence. }
+  assert (H2 : (forall x, In x (epar e) -> knownb E x = true) <-> (forall p, In p (epar e) -> exists ep, alookup p E = Some ep)).
+  { split; intros H p Hp; apply knownb_iff; apply H; exact Hp. }
+  assert (H3 : (match self_parent e with
+     | Some sp => match alookup sp E with Some esp => Nat.eqb (ecr esp) (ecr e) && (eseq e =? eseq esp + 1) | None => false end
+     | None => eseq e =? 1 end) = true <->
+     match self_parent e with
+     | Some sp => exists esp, alookup sp E = Some esp /\ ecr esp = ecr e /\ eseq e = eseq esp + 1
+     | None => eseq e = 1 end).
+  { destruct (self_parent e) as [sp|]; [|apply N.eqb_eq].
+    destruct (alookup sp E) as [esp|]; split.
+    - intros H. apply andb_true_iff in H. destruct H as [A B]. apply Nat.eqb_eq in A. apply N.eqb_eq in B. exists esp. auto.
+    - intros (esp' & [= <-] & A & B). rewrite A, B, Nat.eqb_refl, N.eqb_refl. reflexivity.
+    - discriminate.
+    - intros (esp' & H & _). discriminate H. }
+  rewrite H1, H2, H3. tauto.
+Qed.
